@@ -69,6 +69,10 @@ def surrounding(rng, tag, rich, same_names=()):
         ["class ZqHolder_{0}(object):".format(tag), "    class ConfigClass(object):", "        zq_nested_same_name_{0} = 1".format(tag),
          "    f_target = {0!r}".format("zq_attr_named_like_target_" + tag), "    set_cli_args: int = 7"],
         ["__all__ = ['ConfigClass', 'f_target', 'set_cli_args', 'zq_{0}']".format(tag)],
+        # a plain function that binds the targets' simple names locally, inside compound statements
+        ["def zq_loader_{0}(zq_path):".format(tag), "    with open(zq_path) as zq_f:", "        ConfigClass = zq_f.read()",
+         "    if ConfigClass:", "        f_target = len(ConfigClass)", "    else:", "        f_target = 0",
+         "    for set_cli_args in range(f_target):", "        pass", "    return ConfigClass, f_target"],
     ]
     k_before = rng.randint(0, 3)
     k_after = rng.randint(0, 3)
